@@ -11,7 +11,7 @@ PROPS = {
     "C24": ["c24_streams"],
     "C25": ["c24_streams"],
     "C26": ["c26_server"],
-    "C28": ["c24_streams"],
+    "C28": ["c24_streams", "c28_connects"],
     "C37": ["c37_remotes"],
     "C38": ["c38_exchange"],
     "C39": ["c39_odict"],
